@@ -428,8 +428,11 @@ def run(ck, w):
         s = rules.agg_sites(fl, "blockdir::Address")[0][2]
         so = flow.origins_x(lib, fl, rules.field_operand(s, "start"))
         lo = flow.origins_x(lib, fl, rules.field_operand(s, "len"))
-        if any(x[0] == "param" and "start" in x[2] for x in so) and any(x[0] == "param" and "len" in x[2] for x in lo) and \
-                not [x for x in so | lo if x[0] == "arith"]:
+        def fld(oo, name):
+            # the field of the queued file: a closure parameter (`|qf| .. qf.start`), or the loop variable of `for qf in queue`
+            return any((x[0] in ("param", "upvar") and name in x[2]) or (x[0] == "call" and name in x[3] and re.search(r"Iterator>?::next$|into_iter$", x[1]))
+                       for x in oo)
+        if fld(so, "start") and fld(lo, "len") and not [x for x in so | lo if x[0] == "arith"]:
             ck.ok(o)
         else:
             ck.fail(o, fl.name, "address fields not from the queued file", "start from %s, len from %s" % (flow.origin_summary(so), flow.origin_summary(lo)))
